@@ -185,6 +185,8 @@ def emit_clustal(names, rows, width=60, header=b'CLUSTAL W (1.83) multiple seque
     L = len(rows[0]) if rows else 0
     w = max(len(n) for n in names) + pad
     out = [header + nl, nl, nl]
+    if width <= 0:
+        width = max(L, 1)             # unwrapped: one block
     for off in range(0, max(L, 1), width):
         for n, r in zip(names, rows):
             out.append(n.ljust(w) + r[off:off + width] + nl)
@@ -208,6 +210,8 @@ def emit_msf(names, rows, width=50, group=10, kind='N', crlf=False, gapch=b'.', 
     for n, c in zip(names, chks):
         out.append(b' Name: ' + n.ljust(w) + b' Len: %5d  Check: %4d  Weight: 1.00' % (L, c) + nl)
     out.append(nl + b'//' + nl + nl)
+    if width <= 0:
+        width = max(L, 1)
     for off in range(0, max(L, 1), width):
         for n, r in zip(names, rows2):
             seg = r[off:off + width]
